@@ -35,6 +35,15 @@ int main (int argc, char** argv)
 #ifndef SYMX_SYMBOLIC
   // large and tiny magnitudes, negative and zero values: value and first-order variance against the analytic
   // derivatives evaluated in extended precision (skipped where the exact result is not representable in binary64)
+  // comparisons of estimates go by value
+  fn ("estimate_comparisons_plain", [] {
+    const double vals[] = { -2.5, 0.0, 1.0, 1.0, 3.75 };
+    for (double x : vals) for (double y : vals) for (double vx : { 0.0, 0.5 }) for (double vy : { 0.25, 4.0 }) { Estimate<double> a (x, vx), b (y, vy); char what[160];
+      snprintf (what, 160, "comparisons of (%g +- %g) and (%g +- %g) follow the values", x, std::sqrt (vx), y, std::sqrt (vy));
+      expect_true (what, (a == b) == (x == y) && (a != b) == (x != y) && (a < b) == (x < y) && (a > b) == (x > y)); }
+    // accessors: the error is the square root of the variance, the setters touch one field each
+    Estimate<double> e (1.5, 0.25); e.set_value (-2.0); expect ("set_value", e.get_value (), -2.0); expect ("set_value keeps the variance", e.get_variance (), 0.25); expect ("get_error", e.get_error (), 0.5);
+    e.set_error (3.0); expect ("set_error stores the square", e.get_variance (), 9.0); expect ("set_error keeps the value", e.get_value (), -2.0); e.set_variance (16.0); expect ("set_variance", e.get_error (), 4.0); }, 1);
   fn ("e_magnitudes_plain", [] {
     typedef long double L;
     auto check = [] (const char* op, double x, double vx, double y, double vy, const E& r, L val, L dx, L dy) {
